@@ -716,6 +716,11 @@ class Interp(object):
             v = env.vars.get(nm)
             if isinstance(v, Lane):
                 v.t = ir.var(c.fresh('h_' + nm, v.t.sort).args[0] + '@i', v.t.sort)
+        for nm in spec.havoc:
+            if nm == '$rng':
+                State.rng = spec.havoc[nm](c)          # the ghost generator state at the loop head
+            elif nm not in names and nm in env.vars:
+                env.vars[nm] = spec.havoc[nm](c)       # a container the body mutates through a method call
         for nm in names:
             if nm in spec.havoc:
                 env.vars[nm] = spec.havoc[nm](c)
@@ -1324,9 +1329,40 @@ class Interp(object):
         return self.ev(sl, env, module, func)
 
     def ex_Subscript(self, e, env, module, func):
+        # sorted(xs, key=k)[0] is the FIRST element (in iteration order) among those with the least key: found by a
+        # case split that is linear in len(xs), instead of sorting the whole sequence (factorially many orders)
+        v = e.value
+        if isinstance(v, ast.Call) and isinstance(v.func, ast.Name) and v.func.id == 'sorted' and len(v.args) == 1 \
+                and isinstance(e.slice, ast.Constant) and e.slice.value == 0 \
+                and all(k.arg in ('key',) for k in v.keywords) and self._is_builtin('sorted', env):
+            r = self._least(v, env, module, func)
+            if r is not NotImplemented:
+                return r
         base = self.ev(e.value, env, module, func)
         key = self.ev_index(e.slice, env, module, func)
         return self.getitem(base, key)
+
+    def _is_builtin(self, name, env):
+        try:
+            env.lookup(name)
+            return False
+        except KeyError:
+            return self.lib.builtin(self, name) is not NotImplemented
+
+    def _least(self, call, env, module, func):
+        items, g = self.iterate(self.ev(call.args[0], env, module, func))
+        if g or not items:
+            return NotImplemented
+        keyf = self.ev(call.keywords[0].value, env, module, func) if call.keywords else None
+        keys = [self.call(keyf, [it], {}) if keyf is not None else it for it in items]
+        if not all(isinstance(k, (Sym, int, float)) for k in keys) or not any(isinstance(k, Sym) for k in keys):
+            return NotImplemented
+        ts = [values.to_term(k) for k in keys]
+        for j in range(len(items) - 1):
+            cond = ir.and_(*([ir.lt(ts[j], ts[i]) for i in range(j)] + [ir.le(ts[j], ts[i]) for i in range(j + 1, len(items))]))
+            if State.ctx.branch(cond):
+                return items[j]
+        return items[-1]
 
     def getitem(self, base, key):
         if isinstance(base, (Lane, Arr2)):
@@ -1526,6 +1562,8 @@ class Interp(object):
         if isinstance(f, enum.EnumMeta):
             try:
                 a0 = args[0]
+                if isinstance(a0, Sym) and a0.t.sort == 'U':
+                    return a0                      # an abstract member of the enumeration (contract-level value)
                 if isinstance(a0, Sym):
                     a0 = self.concrete_index(a0)
                 return f(a0)
